@@ -339,6 +339,13 @@ def base_valid(skel, rankmode, ncpu, appmode):
                 s["rank"], s["nranks"] = nr - 1 - pi, nr       # rank order opposite to creation order
             elif rankmode == "fwd":
                 s["rank"], s["nranks"] = pi, nr
+            elif rankmode in ("mixA", "mixB"):
+                # MIXED trace (legal, only a warning): the processes of ONE loom carry ranks, the other loom has none,
+                # so set_sort_criteria must keep sorting the looms by name ("only if ALL looms have ranks")
+                ranked = looms[0] if rankmode == "mixA" else looms[-1]
+                rp = [k for k in procs if k[0] == ranked]
+                if l == ranked:
+                    s["rank"], s["nranks"] = len(rp) - 1 - rp.index((l, p)), len(rp)
         if l not in seenl:
             seenl.add(l)
             off = 10 * looms.index(l)
@@ -545,8 +552,10 @@ def run(chk):
     for (nm, streams, naming, orders) in load_corpus():
         n = len(streams)
         if orders:      # the same streams under several enumeration orders (rank ties)
-            for od in orders:
-                cases.append({"kind": "corpus-ranktie", "label": nm, "streams": [streams[k] for k in od],
+            for oi, od in enumerate(orders):
+                tie = spec_rank_ties(streams)
+                cases.append({"kind": "corpus-ranktie" if tie else "corpus", "label": nm if tie else "%s#%d" % (nm, oi),
+                              "streams": [streams[k] for k in od],
                               "naming": tuple("s%02d" % k for k in range(n))})
             continue
         cases.append({"kind": "corpus", "label": nm, "streams": streams,
@@ -557,12 +566,18 @@ def run(chk):
     nperm = chk.budget(3, 12)
     bases = []
     for si, skel in enumerate(shapes()):
-        for rankmode in ("none", "rev", "fwd"):
+        nlooms = len({l for (l, p, t) in skel})
+        for rankmode in ("none", "rev", "fwd", "mixA", "mixB"):
+            if rankmode.startswith("mix") and nlooms < 2:
+                continue
             for ncpu in (2, 3):
                 for appmode in ("same", "distinct"):
                     if chk.tier == "quick" and rankmode == "fwd" and (ncpu == 3 or appmode == "distinct"):
                         continue
+                    if chk.tier == "quick" and rankmode.startswith("mix") and ncpu == 3 and appmode == "distinct":
+                        continue
                     bases.append(base_valid(skel, rankmode, ncpu, appmode))
+                    chk.count("base:rank-" + rankmode)
     for bi, base in enumerate(bases):
         r = rng.fork("b%d" % bi)
         variants = [base]
@@ -586,7 +601,7 @@ def run(chk):
             for (lab, m) in illformed_of(m0):
                 cases.append({"kind": "illformed", "label": lab, "streams": m, "naming": namings(len(m), r, 1)[1]})
         # ---- rank ties (left open by the property): observed and recorded, compared with the model only
-        if any(s["rank"] is not None for s in base) and len({(s["loom"], s["pid"]) for s in base}) > 1:
+        if sum(1 for s in base if s["rank"] is not None) > 1:
             m = [dict(s) for s in base]
             for s in m:
                 if s["rank"] is not None:
